@@ -21,6 +21,8 @@ REPO = os.environ.get("GV_REPO", "/repo")
 TARGET = os.path.join(VERIF, "target")
 WORKER_BIN = os.path.join(TARGET, "rel", "release", "gv-worker")
 CLI_BIN = os.path.join(TARGET, "cli", "release", "cfn-guard")
+# same worker, optimised, but with arithmetic-overflow checks compiled in (what a debug build would panic on and a release build silently wraps)
+OVF_BIN = os.path.join(TARGET, "ovf", "release", "gv-worker")
 SCRATCH = os.path.join(TARGET, "scratch")
 EVIDENCE = os.path.join(VERIF, "evidence")
 REPLAY = os.path.join(VERIF, "replay")
@@ -46,7 +48,7 @@ def _cargo_env():
     return env
 
 
-def build(need_cli=False, quiet=True):
+def build(need_cli=False, quiet=True, need_ovf=False):
     """(Re)build the worker (hooks on) and optionally the plain CLI from /repo's
     working tree. cargo's fingerprinting makes this a no-op when nothing changed.
     A build failure is INCONCLUSIVE, never a violation."""
@@ -80,6 +82,14 @@ def build(need_cli=False, quiet=True):
             if p.returncode != 0:
                 log(p.stdout[-4000:])
                 raise Inconclusive("cli build failed")
+        if need_ovf:
+            cmd = CARGO + ["build", "--release", "--offline", "--manifest-path", os.path.join(harness, "Cargo.toml")]
+            env["CARGO_TARGET_DIR"] = os.path.join(TARGET, "ovf")
+            env["CARGO_PROFILE_RELEASE_OVERFLOW_CHECKS"] = "true"
+            p = subprocess.run(cmd, env=env, stdout=subprocess.PIPE, stderr=subprocess.STDOUT, text=True)
+            if p.returncode != 0:
+                log(p.stdout[-4000:])
+                raise Inconclusive("overflow-checked worker build failed")
         if not quiet:
             log("build ok in %.1fs" % (time.time() - t0))
     finally:
